@@ -27,6 +27,9 @@ var tokens = []string{"(*", "*)", "(", "*", ")", "\"", "\n", " ", "x", "é"}
 var extraTokens = []string{"%", "%d", "%s", "%!", "\t", "\\", "'", "\r"}
 var extraPartners = []string{"\"", "(*", "x", " "}
 
+// texts long enough for any line-length limit a printer might have (words separated by blanks, so that a fold lands inside)
+var longTexts = []string{strings.Repeat("lorem ipsum ", 30), strings.Repeat("w ", 200), strings.Repeat("x", 400)}
+
 type Text struct {
 	Pos string `json:"pos"`
 	T   string `json:"t"`
@@ -118,6 +121,7 @@ func strings_(maxLen int) []string {
 		}
 	}
 	rec("", 0)
+	out = append(out, longTexts...)
 	for _, e := range extraTokens {
 		out = append(out, e, e+e)
 		for _, q := range extraPartners {
@@ -439,6 +443,28 @@ func f2(x uint64) uint64 {
 	return use(s) + use(St{v: 2})
 }
 
+// apply2 takes a function over a pointer (its Go signature contains "(*St")
+func apply2(g func(*St) uint64, s *St) uint64 {
+	return g(s)
+}
+
+func (s *St) bump(k uint64) {
+	s.v = s.v + k
+}
+
+func viaPtr() uint64 {
+	s := &St{v: 1}
+	s.bump(2)
+	return apply2(func(p *St) uint64 {
+		return p.v
+	}, s)
+}
+
+func maps(m map[uint64][]uint64, k uint64) (uint64, bool) {
+	v, ok := m[k]
+	return uint64(len(v)), ok
+}
+
 const K uint64 = 5 // trailing
 
 func arith(x uint64, y uint64) uint64 {
@@ -485,8 +511,12 @@ func partFlags(goose, work string, acc *ev.Acc) {
 			continue
 		}
 		f, perr := gl.ParseFile(string(b))
-		if perr != nil || len(f.Bad) > 0 {
-			viol("malformed", fmt.Sprint(perr, f.Bad))
+		if perr != nil {
+			viol("malformed", "the file is not lexically well-formed under these flags: "+perr.Error())
+			continue
+		}
+		if len(f.Bad) > 0 {
+			viol("malformed", fmt.Sprint(f.Bad[0].Err, " ", f.Bad[0].Raw))
 			continue
 		}
 		s := shapeOf(f)
